@@ -6,7 +6,7 @@ Copyright (c) 2017-2017 Exa Networks. All rights reserved.
 
 from __future__ import annotations
 
-from typing import ClassVar
+from typing import Any, ClassVar
 
 from exabgp.protocol.family import AFI
 from exabgp.protocol.resource import Resource
@@ -16,6 +16,12 @@ class NetMask(Resource):
     NAME: ClassVar[str] = 'netmask'
 
     maximum: int  # Set by make_netmask() - 32 for IPv4, 128 for IPv6
+
+    def __new__(cls, *args: Any) -> 'NetMask':
+        # Resource caches its instances by value, but a netmask carries the size of its address
+        # family in `maximum`: sharing one object between the IPv4 and the IPv6 mask of the same
+        # length made the last make_netmask() decide the family of both
+        return int.__new__(cls, *args)
 
     def size(self) -> int:
         return int(pow(2, self.maximum - int(self)))
